@@ -20,7 +20,7 @@ PROP = "C18"
 LEVEL = "exploration"
 
 CORPUS = ["quic_default", "quic_zero_ccid", "quic_prefix_cids", "quic_ncid", "quic_two", "tls12", "tls12_b", "tls13_v6", "tls13_b", "mixed",
-          "quic_dup_initial", "quic_vn", "tls12_retransmissions", "tls12_cbc_damaged", "tls_nine", "quic_alpn_bytes", "bad_checksums",
+          "quic_dup_initial", "quic_vn", "tls12_retransmissions", "tls12_cbc_damaged", "tls_nine", "quic_alpn_bytes", "bad_checksums", "quic_zero_rtt",
           "aborts_cut_file", "aborts_no_capture"]
 # quic_alpn_bytes: the ClientHello offers one application protocol whose name is not ASCII (a GREASE value, RFC 8701);
 # aborts_*: inputs on which the run ends with an error (file cut inside a block / not a capture at all) - they only serve as
@@ -37,7 +37,7 @@ def describe(tier):
     S = 128 if tier == "quick" else 2048
     return {
         "rule": f"H: {len(CORPUS)} scenarios (incl. a duplicated Initial, a Version Negotiation datagram, TCP retransmissions) x (every iteration order of the scenario's connection-ID set realised by a hash seed in 0..{S - 1}, "
-                "one witness seed each) x cwd in {/, temp, /repo} x 9 environments (incl. PYTHONOPTIMIZE and non-UTF-8 stdout encodings), through `python -m tlexport.main` in fresh "
+                "one witness seed each) x cwd in {/, temp, /repo} x 10 environments (incl. PYTHONOPTIMIZE, non-UTF-8 stdout encodings, SyntaxWarning as error) x 8 further hash seeds, through `python -m tlexport.main` in fresh "
                 "processes, plus two runs with -a; R: all ordered pairs (A,B) of corpus entries, without and with -a, run back to back in one interpreter without state "
                 "restoration, and pairs whose two runs use different options (-m, -c, -a, -p, -g). non-trivial: a run whose output holds data and equals the reference hash; distinct = distinct "
                 "(scenario, seed/cwd/env) or pair",
@@ -53,7 +53,8 @@ def describe(tier):
     }
 
 
-def scenario(name, seed):
+def scenario(name, seed, legacy=False):
+    """legacy: the capture as a legacy pcap file (for -l) instead of pcapng"""
     flows = []
     if name == "quic_default":
         flows.append(scen.quic_flow({}, seed, 0))
@@ -77,6 +78,9 @@ def scenario(name, seed):
                 bytes.fromhex("00000001") + bytes.fromhex("6b3343cf") + bytes.fromhex("1a2a3a4a")
             f.pkts.insert(1, cap.Pkt(0, "s", "udp", vn))
         flows.append(f)
+    elif name == "quic_zero_rtt":
+        # early data: the client offers four suites (what protects the 0-RTT packets is decided from the ClientHello alone)
+        flows.append(scen.quic_flow({"suite": 0x1301, "zero_rtt": True, "offered": [0x1301, 0x1302, 0x1303, 0x1304]}, seed, 0, key=("0rtt",)))
     elif name == "quic_alpn_bytes":
         flows.append(scen.quic_flow({"suite": 0x1301, "alpn": (b"\x8a\x8a",)}, seed, 0, key=("alpn",)))
     elif name in ABORTING:
@@ -136,6 +140,9 @@ def scenario(name, seed):
         if f.kind == "quic":
             c = f.conn
             cids.append(sorted({c.odcid, c.ccid, c.scid}))
+    if legacy:
+        from ..model import pcapio
+        return pcapio.write_pcap(cap.to_items(pkts)), "\n".join(lines) + "\n", cids
     return cap.pcapng(pkts), "\n".join(lines) + "\n", cids
 
 
@@ -172,7 +179,8 @@ def witness_seeds(cidsets, S):
 
 ENVS = [{}, {"LANG": "C"}, {"LANG": "C.UTF-8", "LC_ALL": "C.UTF-8"}, {"TZ": "Asia/Tokyo"}, {"PYTHONUTF8": "1", "HOME": None},
         {"PYTHONOPTIMIZE": "1"}, {"PYTHONOPTIMIZE": "2", "PYTHONDEVMODE": "1"}, {"PYTHONIOENCODING": "ascii"},
-        {"PYTHONIOENCODING": "latin-1", "LC_ALL": "C", "PYTHONCOERCECLOCALE": "0", "PYTHONUTF8": "0"}]
+        {"PYTHONIOENCODING": "latin-1", "LC_ALL": "C", "PYTHONCOERCECLOCALE": "0", "PYTHONUTF8": "0"},
+        {"PYTHONWARNINGS": "error::SyntaxWarning"}]
 # the two -a runs of every scenario use different stdout encodings as well
 ENV_A = [{}, {"PYTHONIOENCODING": "ascii"}]
 
@@ -205,6 +213,9 @@ def run_case(case):
         runs = []
         for order, hs in orders.items():
             runs.append(({"hashseed": hs, "order": order[:80]}, dict(hashseed=str(hs))))
+        # a fixed sweep of further hash seeds (any set or dict of bytes the program iterates is ordered by them)
+        for hs in (1, 2, 3, 5, 7, 11, 13, 17):
+            runs.append(({"hashseed_sweep": hs}, dict(hashseed=str(hs))))
         for cwd in ("/", tmpd, harness.SRC):
             runs.append(({"cwd": "tmp" if cwd == tmpd else cwd}, dict(cwd=cwd, hashseed=str(101 + len(runs)))))
         for e in ENVS:
@@ -271,14 +282,16 @@ def run_case(case):
         if a not in ABORTING:
             for b in ("mixed", "quic_two", "bad_checksums"):
                 db, kb, _ = scenario(b, seed)
+                dl, _kl, _ = scenario(b, seed, legacy=True)
                 for xa, xb in ((("-m", "443:9000"), ("-m",)), ((), ("-c",)), (("-c",), ()), (("-a",), ()), (("-p", "8443", "-m", "8443:1"), ()),
-                               (("-g",), ("-m", "44330:7"))):
+                               (("-g",), ("-m", "44330:7")), (("-d", "DEBUG"), ("-l",)), (("-d", "DEBUG", "-a"), ())):
                     # the reference comes from a FRESH PROCESS: an in-process reference would share whatever the interpreter
                     # has memoised since its first run
-                    fresh = harness.run_cli(db, kb, args=list(xb))
+                    d2, inf = (dl, "in.pcap") if "-l" in xb else (db, "in.pcapng")
+                    fresh = harness.run_cli(d2, kb, args=list(xb), infile=inf)
                     harness.reset_state()
                     harness.run_tlexport(da, ka, xa, reset=False)
-                    r2 = harness.run_tlexport(db, kb, xb, reset=False, keep_output=True)
+                    r2 = harness.run_tlexport(d2, kb, xb, reset=False, keep_output=True, infile=inf)
                     harness.reset_state()
                     n += 3
                     sig = {"first": a, "second": b, "args_first": " ".join(xa), "args_second": " ".join(xb)}
